@@ -98,10 +98,25 @@ type Result struct {
 const logCap = 20000 // a run that logs more than any behaviour of the spec can is cut off (runaway)
 
 type runInfo struct {
-	tag  []int
-	key  string
-	nch  int
-	nlog int
+	tag    []int
+	key    string
+	nch    int
+	nkeep  int
+	nlog   int
+	shadow bool // an interfering second top-level run: logged apart, not traced, keeps nothing
+}
+
+// a continuation kept by a wkeep wrapper together with the copy of the query it will be run on
+type keptK struct {
+	ri   *runInfo // the late run's identity: keeper's tag + [1000 + n]
+	s, r int
+	next sequence.ChainWalker
+	q    *query_context.Context
+}
+
+type lateRes struct {
+	err  ErrID
+	resp int
 }
 
 type progCtx struct {
@@ -110,6 +125,9 @@ type progCtx struct {
 	events []Event            // in the order the harness observed them
 	logs   map[string][]Entry // per run
 	runs   map[string][]int
+	shadow map[string][]Entry // per run of the interfering top-level runs
+	kept   []*keptK
+	late   map[string]lateRes
 }
 
 var runKey = query_context.RegKey()
@@ -142,6 +160,13 @@ func (p *progCtx) log(ri *runInfo, e Entry) error {
 	ri.nlog++
 	if len(p.events) > logCap {
 		return errRunaway
+	}
+	if ri.shadow {
+		if len(p.shadow[ri.key]) > logCap {
+			return errRunaway
+		}
+		p.shadow[ri.key] = append(p.shadow[ri.key], e)
+		return nil
 	}
 	p.logs[ri.key] = append(p.logs[ri.key], e)
 	p.runs[ri.key] = ri.tag
@@ -235,6 +260,20 @@ func (w *hWrap) Exec(ctx context.Context, qCtx *query_context.Context, next sequ
 		return nil
 	case "wcont":
 		return runK(1)
+	case "wkeep":
+		// keep the continuation and a copy of the query as it is now (cache's lazy update does this);
+		// the driver runs it after the top-level Exec has returned
+		if !ri.shadow {
+			ri.nkeep++
+			ltag := append(append([]int{}, ri.tag...), 1000+ri.nkeep)
+			cq := qCtx.Copy()
+			lri := &runInfo{tag: ltag, key: tagKey(ltag)}
+			cq.StoreValue(runKey, lri)
+			w.p.mu.Lock()
+			w.p.kept = append(w.p.kept, &keptK{ri: lri, s: w.s, r: w.r, next: next, q: cq})
+			w.p.mu.Unlock()
+		}
+		return runK(1)
 	case "wpost":
 		if err := runK(1); err != nil {
 			return err
@@ -261,7 +300,7 @@ func (w *hWrap) Exec(ctx context.Context, qCtx *query_context.Context, next sequ
 		for c := 0; c < 2; c++ {
 			ri.nch++
 			ctag := append(append([]int{}, ri.tag...), ri.nch)
-			cri := &runInfo{tag: ctag, key: tagKey(ctag)}
+			cri := &runInfo{tag: ctag, key: tagKey(ctag), shadow: ri.shadow}
 			cq := qCtx.Copy()
 			cq.StoreValue(runKey, cri)
 			wg.Add(1)
@@ -461,7 +500,8 @@ func runOne(idx int, b *Beh, variant int, trace bool) (res Result) {
 	progSeq.n++
 	id := "p" + strconv.Itoa(progSeq.n)
 	progSeq.Unlock()
-	p := &progCtx{id: id, logs: map[string][]Entry{}, runs: map[string][]int{}}
+	p := &progCtx{id: id, logs: map[string][]Entry{}, runs: map[string][]int{}, shadow: map[string][]Entry{},
+		late: map[string]lateRes{}}
 	progs.Store(id, p)
 	defer progs.Delete(id)
 	rng := rand.New(rand.NewSource(vh.Seed()*7919 + int64(idx)*131 + int64(variant)))
@@ -510,11 +550,14 @@ func runOne(idx int, b *Beh, variant int, trace bool) (res Result) {
 		return fail("build", "sequence.NewSequence rejected valid rule text", "built", buildErr.Error())
 	}
 
-	q := new(dns.Msg)
-	q.SetQuestion("c06.test.", dns.TypeA)
-	qCtx := query_context.NewContext(q)
-	root := &runInfo{tag: []int{0}, key: "0"}
-	qCtx.StoreValue(runKey, root)
+	newQ := func(rootTag int, shadow bool) *query_context.Context {
+		q := new(dns.Msg)
+		q.SetQuestion("c06.test.", dns.TypeA)
+		qc := query_context.NewContext(q)
+		qc.StoreValue(runKey, &runInfo{tag: []int{rootTag}, key: strconv.Itoa(rootTag), shadow: shadow})
+		return qc
+	}
+	qCtx := newQ(0, false)
 
 	type outcome struct {
 		err   error
@@ -554,6 +597,17 @@ func runOne(idx int, b *Beh, variant int, trace bool) (res Result) {
 	gotResp := respOf(qCtx)
 	p.mu.Lock()
 	p.events = append(p.events, Event{"ev": "Return", "resp": gotResp, "err": gotErr})
+	p.mu.Unlock()
+
+	// kept continuations: run each one later, on its own copy of the query, after OTHER traffic went
+	// through the same built sequences (another top-level run of the program, an unrelated jump)
+	if d := lateRuns(p, plugins, m, entry, newQ, rng, canonical); d != "" {
+		if d == "hang" {
+			return fail("hang", "a kept continuation did not return within 20 s", "returns", "still running")
+		}
+		return fail("panic", "a kept continuation / interfering run panicked", "no panic", d)
+	}
+	p.mu.Lock()
 	nEntries := len(p.events) - 1
 	p.mu.Unlock()
 	res.Entries = nEntries
@@ -581,6 +635,37 @@ func runOne(idx int, b *Beh, variant int, trace bool) (res Result) {
 			return fail("log", fmt.Sprintf("run %s stopped before expected entry %d", k, n+1), short(b, &er.Log[n]), "end")
 		}
 	}
+	for k, lr := range p.late {
+		er := expRuns[k]
+		if er == nil {
+			continue // reported below: a run the specification does not have
+		}
+		if lr.err != er.Err {
+			return fail("err", "a kept continuation run later returned another error (run "+k+")", errKind(er.Err), errKind(lr.err))
+		}
+		if lr.resp != er.Resp {
+			return fail("resp", "a kept continuation run later left another response (run "+k+")", strconv.Itoa(er.Resp), strconv.Itoa(lr.resp))
+		}
+	}
+	// an interfering top-level run of the same program must log what the first one logged
+	for sk, got := range p.shadow {
+		rest := ""
+		if i := strings.IndexByte(sk, '.'); i >= 0 {
+			rest = sk[i:]
+		}
+		er := expRuns["0"+rest]
+		if er == nil {
+			return fail("runs", "second top-level run: a query copy the specification does not have: "+sk, "no run", short(b, &got[0]))
+		}
+		if len(got) != len(er.Log) {
+			return fail("log", fmt.Sprintf("second top-level run %s logged %d entries instead of %d", sk, len(got), len(er.Log)), "same as first run", "differs")
+		}
+		for i := range got {
+			if got[i] != er.Log[i] {
+				return fail("log", fmt.Sprintf("second top-level run %s entry %d differs", sk, i+1), short(b, &er.Log[i]), short(b, &got[i]))
+			}
+		}
+	}
 	for k := range p.logs {
 		if _, ok := expRuns[k]; !ok {
 			return fail("runs", "a query copy the specification does not have logged entries: "+k, "no run "+k, short(b, &p.logs[k][0]))
@@ -599,6 +684,115 @@ func runOne(idx int, b *Beh, variant int, trace bool) (res Result) {
 		res.Text = nil
 	}
 	return res
+}
+
+func errID(err error) ErrID {
+	if err == nil {
+		return ErrID{K: "none"}
+	}
+	var he *hErr
+	if errors.As(err, &he) {
+		return he.id
+	}
+	return ErrID{K: "other:" + err.Error()}
+}
+
+type nopExec struct{}
+
+func (nopExec) Exec(context.Context, *query_context.Context) error { return nil }
+
+// lateRuns runs the kept continuations (also those kept by late runs themselves).  Returns "" or
+// "hang" / a panic text.
+func lateRuns(p *progCtx, plugins map[string]any, m *coremain.Mosdns, entry *sequence.Sequence,
+	newQ func(int, bool) *query_context.Context, rng *rand.Rand, canonical bool) (bad string) {
+	p.mu.Lock()
+	n := len(p.kept)
+	p.mu.Unlock()
+	if n == 0 {
+		return ""
+	}
+	// unrelated traffic: another program whose jump returns somewhere else
+	plugins["auxn"] = nopExec{}
+	aux2, err := sequence.NewSequence(coremain.NewBP("aux2", m), []sequence.RuleArgs{{Exec: "$auxn"}})
+	if err != nil {
+		return "aux2: " + err.Error()
+	}
+	plugins["aux2"] = aux2
+	aux1, err := sequence.NewSequence(coremain.NewBP("aux1", m), []sequence.RuleArgs{{Exec: "$auxn"}, {Exec: "jump aux2"}, {Exec: "$auxn"}, {Exec: "jump aux2"}})
+	if err != nil {
+		return "aux1: " + err.Error()
+	}
+	guard := func(f func()) (out string) {
+		done := make(chan string, 1)
+		go func() {
+			defer func() {
+				if v := recover(); v != nil {
+					done <- fmt.Sprintf("%v\n%s", v, debug.Stack())
+				}
+			}()
+			f()
+			done <- ""
+		}()
+		select {
+		case out = <-done:
+			return out
+		case <-time.After(20 * time.Second):
+			return "hang"
+		}
+	}
+	shadowN := 7
+	interfere := func() string {
+		return guard(func() {
+			_ = aux1.Exec(context.Background(), newQ(99, true))
+			shadowN++
+			_ = entry.Exec(context.Background(), newQ(shadowN, true))
+			_ = aux1.Exec(context.Background(), newQ(99, true))
+		})
+	}
+	for i := 0; ; i++ {
+		p.mu.Lock()
+		if i >= len(p.kept) {
+			p.mu.Unlock()
+			return ""
+		}
+		k := p.kept[i]
+		p.mu.Unlock()
+		if d := interfere(); d != "" {
+			return d
+		}
+		concurrent := !canonical && rng.Intn(2) == 0
+		var wg sync.WaitGroup
+		var cbad string
+		if concurrent {
+			// ... and concurrently with a further top-level run and unrelated jumps
+			wg.Add(1)
+			go func() {
+				defer wg.Done()
+				cbad = interfere()
+			}()
+		}
+		d := guard(func() {
+			lg := func(t string, mm int) error { return p.log(k.ri, Entry{t, k.s, k.r, mm, ""}) }
+			var err error
+			if err = lg("ks", 1); err == nil {
+				if err = k.next.ExecNext(context.Background(), k.q); err == nil {
+					err = lg("ke", respOf(k.q))
+				}
+			}
+			p.mu.Lock()
+			lr := lateRes{err: errID(err), resp: respOf(k.q)}
+			p.late[k.ri.key] = lr
+			p.events = append(p.events, Event{"ev": "LateReturn", "tag": k.ri.tag, "resp": lr.resp, "err": lr.err})
+			p.mu.Unlock()
+		})
+		wg.Wait()
+		if d != "" {
+			return d
+		}
+		if cbad != "" {
+			return cbad
+		}
+	}
 }
 
 func errKind(e ErrID) string {
